@@ -262,35 +262,35 @@ func parseRule(node *yaml.Node, offsetLine, offsetColumn int, contentLines []str
 					return duplicatedKeyError(lines, part.Line+offsetLine, recordKey)
 				}
 				recordNode = part
-				recordPart = newYamlNode(part, offsetLine, offsetColumn, contentLines, key.Column+2)
+				recordPart = newYamlNode(part, offsetLine, offsetColumn, contentLines, 1)
 				lines.Last = max(lines.Last, recordPart.Pos.Lines().Last)
 			case alertKey:
 				if alertPart != nil {
 					return duplicatedKeyError(lines, part.Line+offsetLine, alertKey)
 				}
 				alertNode = part
-				alertPart = newYamlNode(part, offsetLine, offsetColumn, contentLines, key.Column+2)
+				alertPart = newYamlNode(part, offsetLine, offsetColumn, contentLines, 1)
 				lines.Last = max(lines.Last, alertPart.Pos.Lines().Last)
 			case exprKey:
 				if exprPart != nil {
 					return duplicatedKeyError(lines, part.Line+offsetLine, exprKey)
 				}
 				exprNode = part
-				exprPart = newPromQLExpr(part, offsetLine, offsetColumn, contentLines, key.Column+2)
+				exprPart = newPromQLExpr(part, offsetLine, offsetColumn, contentLines, 1)
 				lines.Last = max(lines.Last, exprPart.Value.Pos.Lines().Last)
 			case forKey:
 				if forPart != nil {
 					return duplicatedKeyError(lines, part.Line+offsetLine, forKey)
 				}
 				forNode = part
-				forPart = newYamlNode(part, offsetLine, offsetColumn, contentLines, key.Column+2)
+				forPart = newYamlNode(part, offsetLine, offsetColumn, contentLines, 1)
 				lines.Last = max(lines.Last, forPart.Pos.Lines().Last)
 			case keepFiringForKey:
 				if keepFiringForPart != nil {
 					return duplicatedKeyError(lines, part.Line+offsetLine, keepFiringForKey)
 				}
 				keepFiringForNode = part
-				keepFiringForPart = newYamlNode(part, offsetLine, offsetColumn, contentLines, key.Column+2)
+				keepFiringForPart = newYamlNode(part, offsetLine, offsetColumn, contentLines, 1)
 				lines.Last = max(lines.Last, keepFiringForPart.Pos.Lines().Last)
 			case labelsKey:
 				if labelsPart != nil {
